@@ -161,6 +161,11 @@ def _work(chunk):
         if fl is False:
             if any(ref_vals):
                 bad("flatten-false", f"flatten_logical_and reports False but predicate is true on {ROWS[ref_vals.index(True)]}")
+        elif len(fl) > 1 + len(subexpressions(e)):
+            bad(
+                "flatten-too-many-conjuncts",
+                f"flatten_logical_and returned {len(fl)} conjuncts for a tree with {1 + len(subexpressions(e))} nodes",
+            )
         else:
             try:
                 fns = [ie.convert_predicate(c) for c in fl]
